@@ -9,11 +9,18 @@ Follows `update_for_epoch` → `save_model_and_optimizer_with_info` / `save_info
 save   : makedirs, NamedTemporaryFile, torch.save, makedirs, NamedTemporaryFile, torch.save,
          os.replace(tmp1 → model path), os.replace(tmp2 → optimizer path)
 hist   : open(csv, "a")   -- creates the file when absent
-         one buffered write at close: [header] + row   (header iff `write_header`)
+         [csv.writer.writerow(names)]   -- one `f.write(line)`, iff `write_header`
+         csv.writer.writerow(row)       -- one `f.write(line)`
 clean  : os.remove(p) for every p of the clean-up set that exists (set order = unspecified)
 ```
 
-and in the order of each branch of `update_for_epoch`:
+Every `f.write(line)` of the history file is a mutating call of its own (`FsOp.hwrite`): an
+interrupt (`KeyboardInterrupt`, `SystemExit`) between the two `writerow` calls unwinds through the
+`with` block, which flushes the header line and nothing else. A line reaches the file whole
+(`hwrite l`) — that is an ASSUMPTION (see `tear`): a data row torn in the middle is representable
+(`Line.torn`) and makes every later controller raise.
+
+The calls come in the order of each branch of `update_for_epoch`:
 
 * `keep_last_and_best_only`, new epoch is not best and its path equals the best epoch's path:
   `ValueError` (nothing is written);
@@ -33,6 +40,9 @@ What is abstracted:
 * a history row is identified by its epoch: its other columns are functions of the metric
   history (that is C15's subject); the validation metric that decides "best" is `vals[e-1]`
   (`none` = `inf`/`nan`, never best).
+* the metric that decides "best" is the validation metric, or the training metric when
+  `update_for_epoch(..., best_is_train=True)`: `deciding` picks the column, everything else is
+  parametric in the chosen column `vals`.
 * `Quirks` selects between the pinned behaviour and the repaired one at the two places where
   the pinned tree breaks crash safety (see `fixes/C16-*.md`).
 
@@ -56,6 +66,7 @@ inductive Content where
 inductive Line where
   | header
   | row (epoch : Nat)
+  | torn                 -- a data row cut in the middle (no line end, fields missing)
   deriving DecidableEq, Repr
 
 /-- Directory contents as an association list. Only `get` is ever used to observe it. -/
@@ -83,7 +94,7 @@ inductive FsOp where
   | write (t : Nat) (c : Content)
   | replace (t : Nat) (dst : Path)
   | openAppend
-  | flush (ls : List Line)
+  | hwrite (l : Line)
   | remove (p : Path)
   deriving DecidableEq, Repr
 
@@ -96,7 +107,7 @@ def exec1 (d : Disk) : FsOp → Disk
       | some c => { d with files := (d.files.del (.tmp t)).set dst c }
       | none => d
   | .openAppend => { d with csv := some (d.csv.getD []) }
-  | .flush ls => { d with csv := some (d.csv.getD [] ++ ls) }
+  | .hwrite l => { d with csv := some (d.csv.getD [] ++ [l]) }
   | .remove p => { d with files := d.files.del p }
 
 def exec (d : Disk) (ops : List FsOp) : Disk := ops.foldl exec1 d
@@ -133,6 +144,21 @@ def Params.opath (P : Params) (e : Nat) : Path := .optim (P.ko e)
 /-- A format pair without the epoch field: every epoch has the same two paths. -/
 def constP (keep : Bool) : Params := ⟨keep, fun _ => 0, fun _ => 0⟩
 
+/-- The metric an epoch's file name is formatted from when the format names a metric instead of
+the epoch (`"model_{val_met:.3f}.pt"`): epoch 0 is the dummy entry (`inf`), epoch `e ≥ 1` has
+`vals[e-1]`. -/
+def metricAt (vals : List (Option Int)) (e : Nat) : Option Int :=
+  if e = 0 then none else (vals[e - 1]?).getD none
+
+/-- A format pair that depends on the metric only; `g` = the formatted metric as a file key. -/
+def metricP (keep : Bool) (g : Option Int → Nat) (vals : List (Option Int)) : Params :=
+  ⟨keep, fun e => g (metricAt vals e), fun e => g (metricAt vals e)⟩
+
+/-- `update_for_epoch(..., best_is_train)`: which column of a history of (train, val) metric pairs
+decides "best". -/
+def deciding (bestIsTrain : Bool) (ms : List (Option Int × Option Int)) : List (Option Int) :=
+  ms.map (fun p => if bestIsTrain then p.1 else p.2)
+
 /-- The two places where the pinned tree and the repaired tree differ. `true` = pinned. -/
 structure Quirks where
   /-- `write_header = not os.path.exists(csv)` (pinned) vs. `… or the file is empty`. -/
@@ -151,11 +177,13 @@ inductive Err where
 
 /-! ## the history file -/
 
-/-- Epochs of a list of data lines; a line that is not a data row makes `int(row["epoch"])` raise. -/
+/-- Epochs of a list of data lines; a line that is not a data row makes `int(row["epoch"])` (or the
+conversion of a later field of a torn row) raise. -/
 def rowsOf : List Line → Option (List Nat)
   | [] => some []
   | .row e :: rest => (rowsOf rest).map (e :: ·)
   | .header :: _ => none
+  | .torn :: _ => none
 
 /-- `update_cache`: `csv.DictReader` takes the first line as field names whatever it is; every
 further line must have an `epoch` field holding an integer. `none` = the constructor raises. -/
@@ -165,6 +193,8 @@ def parseCsv : Option (List Line) → Option (List Nat)
   | some (.header :: rest) => rowsOf rest
   | some (.row _ :: []) => some []          -- the only row is taken for the header
   | some (.row _ :: _ :: _) => none          -- KeyError: no column called "epoch"
+  | some (.torn :: []) => some []
+  | some (.torn :: _ :: _) => none
 
 /-- Number of recorded epochs when the controller sees exactly epochs `1..k`; `none` when the
 constructor raises or the rows are not `1..k` (states the model does not follow further). -/
@@ -198,41 +228,79 @@ def writeHeader (Q : Quirks) (d : Disk) : Bool :=
   | some [] => !Q.headerOnlyIfAbsent
   | some (_ :: _) => false
 
-/-- `save_info_to_hist`. -/
+/-- The lines `save_info_to_hist` writes, one `f.write` each. -/
+def histLines (Q : Quirks) (d : Disk) (e : Nat) : List Line :=
+  if writeHeader Q d then [.header, .row e] else [.row e]
+
+/-- `save_info_to_hist`: the `open`, then one write per line. -/
 def histOps (Q : Quirks) (d : Disk) (e : Nat) : List FsOp :=
-  [.openAppend, .flush (if writeHeader Q d then [.header, .row e] else [.row e])]
+  .openAppend :: (histLines Q d e).map .hwrite
 
 def present (d : Disk) (p : Path) : Bool := (d.files.get p).isSome
 
-/-- What one call of `update_for_epoch` for epoch `k+1` does to the disk, `k` epochs being
-recorded in the controller's cache and `s` being the state to save: the main sequence and the
-clean-up set (only paths that exist: `_clean_up_files` skips the others). -/
-def planUpdate (Q : Quirks) (P : Params) (vals : List (Option Int)) (k : Nat) (d : Disk)
-    (s : Nat × Nat) : Except Err (List FsOp × List Path) :=
+/-- `raise ValueError("… would overwrite best … checkpoint …")`: keep-last-and-best, the new epoch
+`k+1` is not the best and one of its paths is a path of the best epoch. -/
+def refuses (P : Params) (vals : List (Option Int)) (k : Nat) : Bool :=
+  let e := k + 1
+  let curBest := bestOf (vals.take e)
+  P.keepLB && decide (curBest ≠ e ∧ (P.km e = P.km curBest ∨ P.ko e = P.ko curBest))
+
+/-- `save_info_first`: the history row is appended BEFORE the checkpoint is written. -/
+def infoFirst (Q : Quirks) (P : Params) (vals : List (Option Int)) (k : Nat) (d : Disk) : Bool :=
   let e := k + 1
   let lastBest := bestOf (vals.take k)
   let curBest := bestOf (vals.take e)
-  let save := saveOps P d e s
-  let hist := histOps Q d e
   if P.keepLB then
-    if curBest ≠ e ∧ (P.km e = P.km curBest ∨ P.ko e = P.ko curBest) then
-      .error .wouldOverwriteBest
-    else if curBest = k then
-      .ok (save ++ hist, [])
-    else
-      let infoFirst := P.km e = P.km k ∨ P.km e = P.km lastBest ∨ P.ko e = P.ko k ∨ P.ko e = P.ko lastBest
-      let cl := [P.mpath k, P.opath k] ++
-        (if lastBest ≠ curBest then [P.mpath lastBest, P.opath lastBest] else [])
-      let cl := (cl.filter (fun p => decide (p ≠ P.mpath e ∧ p ≠ P.opath e))).eraseDups
-      .ok ((if infoFirst then hist ++ save else save ++ hist), cl.filter (present d))
-  else
-    let infoFirst :=
-      if Q.infoFirstByExists then present d (P.mpath e) || present d (P.opath e)
-      else (List.range' 1 k).any (fun j => P.km j = P.km e || P.ko j = P.ko e)
-    .ok ((if infoFirst then hist ++ save else save ++ hist), [])
+    if curBest = k then false
+    else decide (P.km e = P.km k ∨ P.km e = P.km lastBest ∨ P.ko e = P.ko k ∨ P.ko e = P.ko lastBest)
+  else if Q.infoFirstByExists then present d (P.mpath e) || present d (P.opath e)
+  else (List.range' 1 k).any (fun j => P.km j = P.km e || P.ko j = P.ko e)
+
+/-- The clean-up set (only paths that exist: `_clean_up_files` skips the others). -/
+def cleanSet (P : Params) (vals : List (Option Int)) (k : Nat) (d : Disk) : List Path :=
+  let e := k + 1
+  let lastBest := bestOf (vals.take k)
+  let curBest := bestOf (vals.take e)
+  if P.keepLB = true ∧ curBest ≠ k then
+    let cl := [P.mpath k, P.opath k] ++
+      (if lastBest ≠ curBest then [P.mpath lastBest, P.opath lastBest] else [])
+    ((cl.filter (fun p => decide (p ≠ P.mpath e ∧ p ≠ P.opath e))).eraseDups).filter (present d)
+  else []
+
+/-- What one call of `update_for_epoch` for epoch `k+1` does to the disk, `k` epochs being
+recorded in the controller's cache and `s` being the state to save: the main sequence and the
+clean-up set. -/
+def planUpdate (Q : Quirks) (P : Params) (vals : List (Option Int)) (k : Nat) (d : Disk)
+    (s : Nat × Nat) : Except Err (List FsOp × List Path) :=
+  let save := saveOps P d (k + 1) s
+  let hist := histOps Q d (k + 1)
+  if refuses P vals k then .error .wouldOverwriteBest
+  else .ok ((if infoFirst Q P vals k d then hist ++ save else save ++ hist), cleanSet P vals k d)
 
 /-- All mutating calls of the update, clean-up in the order `cl`. -/
 def opsOf (main : List FsOp) (cl : List Path) : List FsOp := main ++ cl.map .remove
+
+/-! ## a call that is interrupted half-way
+
+`os.makedirs`, `NamedTemporaryFile`, `os.replace`, `open`, `os.remove` are single system calls:
+done or not done. `torch.save` into the temp file can stop anywhere (`tearW`). A history line is
+ASSUMED to reach the file whole; `tear` drops that assumption for data rows (the header line is
+not tearable in the model). -/
+
+def tearW : FsOp → Option FsOp
+  | .write t _ => some (.write t .torn)
+  | _ => none
+
+def tear : FsOp → Option FsOp
+  | .hwrite (.row _) => some (.hwrite .torn)
+  | op => tearW op
+
+/-- The disk after the first `i` calls of `ops` and a torn execution of call `i` (when `tr` says
+it can be torn; otherwise call `i` is not executed at all). -/
+def tornDisk (tr : FsOp → Option FsOp) (d : Disk) (ops : List FsOp) (i : Nat) : Disk :=
+  match (ops[i]?).bind tr with
+  | some op' => exec1 (exec d (ops.take i)) op'
+  | none => exec d (ops.take i)
 
 /-! ## sessions: a new controller on the files, load the last epoch, train on -/
 
@@ -261,12 +329,14 @@ def updateFull (Q : Quirks) (P : Params) (vals : List (Option Int)) (tr : Train)
   | .error e => .error e
   | .ok (main, cl) => .ok (exec d (opsOf main cl), s')
 
-/-- The same update killed after its first `i` mutating calls. -/
+/-- The same update killed after its first `i` mutating calls; `torn`: call `i` is a `torch.save`
+that got half-way. -/
 def updateCrashed (Q : Quirks) (P : Params) (vals : List (Option Int)) (tr : Train) (k : Nat)
-    (s : Nat × Nat) (d : Disk) (i : Nat) : Disk :=
+    (s : Nat × Nat) (d : Disk) (i : Nat) (torn : Bool) : Disk :=
   match planUpdate Q P vals k d (tr (k + 1) s) with
   | .error _ => d
-  | .ok (main, cl) => exec d ((opsOf main cl).take i)
+  | .ok (main, cl) =>
+      if torn then tornDisk tearW d (opsOf main cl) i else exec d ((opsOf main cl).take i)
 
 /-- `fuel` further complete updates in the same process (stops at a refusal). Returns the
 number of epochs the controller has cached, the state it holds in memory, and the disk. -/
@@ -285,20 +355,20 @@ def runToEnd (Q : Quirks) (P : Params) (vals : List (Option Int)) (tr : Train) (
   | some (k, s) => (runLoop Q P vals tr (vals.length - k) k s d).2.2
 
 /-- A session that completes `j` updates (fewer when the history ends) and is killed after `i`
-mutating calls of the next one. -/
+mutating calls of the next one (`torn`: in the middle of call `i`, a `torch.save`). -/
 def crashSession (Q : Quirks) (P : Params) (vals : List (Option Int)) (tr : Train) (d : Disk)
-    (j i : Nat) : Disk :=
+    (j i : Nat) (torn : Bool := false) : Disk :=
   match startSession P d with
   | none => d
   | some (k, s) =>
       match runLoop Q P vals tr (min j (vals.length - k)) k s d with
       | (k', s', d') =>
-        if k' < vals.length then updateCrashed Q P vals tr k' s' d' i else d'
+        if k' < vals.length then updateCrashed Q P vals tr k' s' d' i torn else d'
 
-/-- Any number of killed sessions, then one that runs to the end. -/
+/-- Any number of killed sessions `(j, i, torn)`, then one that runs to the end. -/
 def faulty (Q : Quirks) (P : Params) (vals : List (Option Int)) (tr : Train) (d : Disk) :
-    List (Nat × Nat) → Disk
+    List (Nat × Nat × Bool) → Disk
   | [] => runToEnd Q P vals tr d
-  | (j, i) :: rest => faulty Q P vals tr (crashSession Q P vals tr d j i) rest
+  | (j, i, torn) :: rest => faulty Q P vals tr (crashSession Q P vals tr d j i torn) rest
 
 end PdtVerif.Checkpoint
